@@ -108,14 +108,28 @@ fn run_shard(path: &str, start: usize, end: usize, out_path: &str, timeout: u64)
     let stdout = child.stdout.take().unwrap();
     let (tx, rx) = mpsc::channel::<String>();
     let reader = std::thread::spawn(move || {
-      for line in BufReader::new(stdout).lines() {
-        match line {
-          Ok(l) => {
-            if tx.send(l).is_err() {
+      // a worker that dies may leave a last line cut off in the middle (its
+      // buffer was flushed up to some byte): only complete lines are records
+      let mut reader = BufReader::new(stdout);
+      let mut buf = Vec::new();
+      loop {
+        buf.clear();
+        match reader.read_until(b'\n', &mut buf) {
+          Ok(0) | Err(_) => break,
+          Ok(_) => {
+            if buf.last() != Some(&b'\n') {
               break;
             }
+            buf.pop();
+            match String::from_utf8(std::mem::take(&mut buf)) {
+              Ok(l) => {
+                if tx.send(l).is_err() {
+                  break;
+                }
+              }
+              Err(_) => break,
+            }
           }
-          Err(_) => break,
         }
       }
     });
